@@ -73,6 +73,22 @@ fn use_expr(r: &mut Rng, g: &SemGen, k: Kind, v: Expr) -> Expr {
     }
 }
 
+/// an expression over TWO variables of kind k (the result has kind k unless it is a difference/ratio)
+fn two_var_expr(r: &mut Rng, k: Kind, a: Expr, c: Expr, for_assign: bool) -> Expr {
+    let b = Box::new;
+    match k {
+        Kind::Num => Expr::Bin { l: b(a), op: *r.pick(&['+', '-', '*']), r: b(c), tight: r.chance(1, 6) },
+        Kind::Money => if for_assign || r.chance(2, 3) { Expr::Bin { l: b(a), op: *r.pick(&['+', '-']), r: b(c), tight: false } } else { Expr::Bin { l: b(a), op: '/', r: b(c), tight: false } },
+        Kind::Dur => Expr::Bin { l: b(a), op: '+', r: b(c), tight: false },
+        Kind::Date => if for_assign { a } else { Expr::Between { a: b(a), b: b(c) } },
+        // the difference of two clock times held in variables that were bound on different simulated days is
+        // not defined by any statement (C11 judges differences of literals); no such line
+        Kind::Time => a,
+        Kind::Unit => Expr::Bin { l: b(a), op: *r.pick(&['+', '-']), r: b(c), tight: false },
+        Kind::Pct => a,
+    }
+}
+
 fn failing(r: &mut Rng) -> String {
     match r.below(5) {
         0 => format!("{} +", r.below(100)),
@@ -108,11 +124,16 @@ fn gen_stmt(r: &mut Rng, g: &SemGen, p: &mut Prog, faults: bool) -> Stmt {
             let dst = if r.chance(1, 2) { src } else { r.usize(p.pool.len()) };
             let k = p.kinds[src].unwrap();
             let v = Expr::Var(g.name_use(r, &p.pool[src].clone()));
-            let e = loop {
+            let same: Vec<usize> = bound.iter().cloned().filter(|i| p.kinds[*i] == Some(k)).collect();
+            let e = if same.len() >= 2 && r.chance(1, 3) {
+                let other = *r.pick(&same);
+                let v2 = Expr::Var(g.name_use(r, &p.pool[other].clone()));
+                two_var_expr(r, k, v.clone(), v2, true)
+            } else { loop {
                 let e = use_expr(r, g, k, v.clone());
                 // keep the kind of the result equal to the kind of the source
                 if !matches!(e, Expr::Between { .. }) && !(k == Kind::Pct && matches!(e, Expr::Bin { .. })) { break e; }
-            };
+            } };
             p.kinds[dst] = Some(k);
             Stmt::Assign { name: g.name_use(r, &p.pool[dst].clone()), e }
         }
@@ -125,7 +146,22 @@ fn gen_stmt(r: &mut Rng, g: &SemGen, p: &mut Prog, faults: bool) -> Stmt {
             let src = *r.pick(&bound);
             let k = p.kinds[src].unwrap();
             let v = Expr::Var(g.name_use(r, &p.pool[src].clone()));
-            Stmt::Eval(use_expr(r, g, k, v))
+            let same: Vec<usize> = bound.iter().cloned().filter(|i| p.kinds[*i] == Some(k)).collect();
+            let nums: Vec<usize> = bound.iter().cloned().filter(|i| p.kinds[*i] == Some(Kind::Num)).collect();
+            if same.len() >= 2 && r.chance(1, 3) {
+                // two variables in one line (possibly a name and a longer name that starts with it)
+                let other = *r.pick(&same);
+                let v2 = Expr::Var(g.name_use(r, &p.pool[other].clone()));
+                Stmt::Eval(two_var_expr(r, k, v, v2, false))
+            } else if k == Kind::Pct && !nums.is_empty() && r.chance(1, 2) {
+                let ni = *r.pick(&nums); let nv = Expr::Var(g.name_use(r, &p.pool[ni].clone()));
+                Stmt::Eval(Expr::Bin { l: Box::new(nv), op: *r.pick(&['+', '-']), r: Box::new(v), tight: false })
+            } else if matches!(k, Kind::Money | Kind::Unit) && !nums.is_empty() && r.chance(1, 4) {
+                let ni = *r.pick(&nums); let nv = Expr::Var(g.name_use(r, &p.pool[ni].clone()));
+                Stmt::Eval(Expr::Bin { l: Box::new(v), op: '*', r: Box::new(nv), tight: false })
+            } else {
+                Stmt::Eval(use_expr(r, g, k, v))
+            }
         }
     }
 }
